@@ -99,17 +99,25 @@ def _run_case(m, rr, stale_f, CallC, LitC, RegC, RegValC, engine_names, pruner_n
     def engine_stub(g, fn, **kw):
         # the engine has processed the predecessors already (C01); now it processes `node`
         env_vars = result["env"].vars
-        tables = {k: v for k, v in env_vars.items() if isinstance(v, dict) and v and all(isinstance(x, Obj) and "value" in x.attrs for x in v.values())}
-        stale_tbl = [v for v in tables.values() if v[node].attrs["value"] is False]
-        time_tbl = [v for v in tables.values() if v[node].attrs["value"] is None]
-        if len(stale_tbl) != 1 or len(time_tbl) != 1:
-            raise AnalysisError("T1: cannot identify the stale table (Slot(False)) and the time table (Slot()) in the stale check")
+        # per-node cells: (table, attribute) pairs of record objects stored per node - two tables of one-field slots
+        # today, but one table of two-field records is the same thing.  The stale cell starts False, the time cell None.
+        cells = []
+        for k, v in env_vars.items():
+            if isinstance(v, dict) and v and node in v and all(isinstance(x, Obj) for x in v.values()):
+                for attr, init in v[node].attrs.items():
+                    if init is False or init is None:
+                        cells.append((v, attr, init))
+        stale_c = [c for c in cells if c[2] is False]
+        time_c = [c for c in cells if c[2] is None]
+        if len(stale_c) != 1 or len(time_c) != 1:
+            raise AnalysisError("T1: cannot identify the per-node stale flag (initially False) and modified-time cell (initially None) in the stale check")
+        (st_tbl, st_attr, _), (tm_tbl, tm_attr, _) = stale_c[0], time_c[0]
         for p, (ps, pt) in zip(preds, pstates):
-            stale_tbl[0][p].attrs["value"] = ps
-            time_tbl[0][p].attrs["value"] = pt
+            st_tbl[p].attrs[st_attr] = ps
+            tm_tbl[p].attrs[tm_attr] = pt
         interp.call(fn, [node], {})
-        result["stale"] = stale_tbl[0][node].attrs["value"]
-        result["time"] = time_tbl[0][node].attrs["value"]
+        result["stale"] = st_tbl[node].attrs[st_attr]
+        result["time"] = tm_tbl[node].attrs[tm_attr]
         return None
 
     stubs = {n: Stub(n, engine_stub) for n in engine_names}
